@@ -2044,6 +2044,18 @@ def register_bounded_footprint(reg):
         zlo, zhi = float(res.mesh.bounds[0][2]), float(res.mesh.bounds[1][2])
         if zlo > cz - h / 2 + 1e-9 or zhi < cz + h / 2 - 1e-9:
             return f"footprint.approxBoundFootprint({cz}, {h}) after earlier requests {hist} returned a prism spanning z in [{zlo}, {zhi}], which does not cover the requested slab [{cz - h / 2}, {cz + h / 2}]"
+        if clause.startswith("cache."):
+            # the cache invariant, observed on the real object, and its consequence for the next request
+            c0, h0, r0 = F._bounded_cache
+            clo, chi = float(r0.mesh.bounds[0][2]), float(r0.mesh.bounds[1][2])
+            if abs(clo - (c0 - h0 / 2)) > 1e-6 * max(1, abs(h0)) or abs(chi - (c0 + h0 / 2)) > 1e-6 * max(1, abs(h0)):
+                nz = c0 + h0 / 4  # a later request inside the recorded range
+                res2 = F.approxBoundFootprint(nz, h)
+                z2lo, z2hi = float(res2.mesh.bounds[0][2]), float(res2.mesh.bounds[1][2])
+                tail = ""
+                if z2lo > nz - h / 2 + 1e-9 or z2hi < nz + h / 2 - 1e-9:
+                    tail = f"; the next request approxBoundFootprint({nz}, {h}) is served a prism spanning z in [{z2lo}, {z2hi}], which does not cover [{nz - h / 2}, {nz + h / 2}]"
+                return f"after footprint.approxBoundFootprint({cz}, {h}) (earlier requests {hist}) the cache records centre {c0} and height {h0} but the cached prism spans z in [{clo}, {chi}]" + tail
         return None
 
     reg.add(
